@@ -22,7 +22,9 @@ RULE = ('Hypothesis-generated SimNet programs with 1-12 interactions of all mode
         'a request-response / stream / channel of the real endpoint in either role and the interaction ends while a '
         'train is open (peer ERROR, local cancel, or the train closed by a fragment carrying COMPLETE); when the protocol '
         'says the interaction is over the real endpoint must hold neither the stream entry nor a partial frame; '
-        'non-trivial there = a train was open when the interaction ended.')
+        'non-trivial there = a train was open when the interaction ended. And: a raw requester ends a request-response / '
+        'stream (CANCEL, or after the answer) and opens a new request of any type on the same id, in the same read or a '
+        'later one: it must be dispatched, not rejected as "id in use".')
 ASSUMPTIONS = ['observation = StreamControl._streams and FrameFragmentCache._frames_by_stream_id (what the suite\'s own '
                'assert_no_open_streams reads)', 'interactions that never terminate at the API are not required to be gone']
 
@@ -40,7 +42,9 @@ def any_src(frag, ends=('flag', 'sep', 'error')):
 def programs(draw):
     frag = draw(gen.frag_pair())
     cfg = {'msg': draw(st.booleans()), 'frag': frag, 'rbuf': draw(gen.rbufs()),
-           'idmask': draw(st.sampled_from([0xF, 0xF, 0x3F, None]))}
+           'idmask': draw(st.sampled_from([0xF, 0xF, 0x3F, None])),
+           # how the scripted application builds the exceptions it raises / fails with
+           'exc_style': draw(st.sampled_from(['str', 'str', 'str', 'none', 'int', 'nested', 'tuple', 'bytes']))}
     n = draw(st.integers(1, 12))
     inter = []
     for i in range(n):
@@ -164,6 +168,7 @@ def run(tier, seed):
             d = depth + 1 if k == 'rr' else depth
             for part in range(parts):
                 jobs.append(('raw_shard', dict(tier=tier, seed=seed, real=real, k=k, role=role, depth=d, part=part, parts=parts)))
+    jobs.append(('reuse_shard', dict(tier=tier, seed=seed)))
     stats = common.run_shards_multi(__name__, jobs)
     stats.extra['rawpeer_depth'] = depth
     return common.finish(PID, tier, seed, LEVEL, RULE, stats, t0, ASSUMPTIONS)
@@ -172,6 +177,11 @@ def run(tier, seed):
 def raw_shard(**kw):
     from harness.checks import c10_raw
     return c10_raw.shard(**kw)
+
+
+def reuse_shard(**kw):
+    from harness.checks import c10_raw
+    return c10_raw.reuse_shard(**kw)
 
 
 def replay(path):
